@@ -28,7 +28,7 @@ var chainEntries = []string{"grpc", "wrap", "tlsconn", "conn"}
 // the extractor gives its own certificate –, whatever it appends and whichever entry point it uses.
 func chainCases(r *core.Run) {
 	rd := r.Rand
-	for w := 0; w < r.N(6, 200); w++ {
+	for w := 0; w < r.N(6, 100); w++ {
 		mode := []string{"dn", "serial"}[w%2]
 		root := chainCert{"C", caDesc(rd, "verif root")}
 		var inters []chainCert
